@@ -111,10 +111,14 @@ def gen_plan(r, tier, index):
             call["verbose"] = True
         if ci and r.random() < 0.1:
             call["lenient_hash"] = True
-        if ci and r.random() < 0.1:
+        if ci and r.random() < 0.15:
             # the job's prep() refuses one of the items under this call's arguments (an exception from user code): whether
-            # jobmap gives up or skips the item, nothing may be run or stored for it
+            # jobmap gives up or skips the item, nothing may be run or stored for it.  (Mostly together with a change of
+            # the arguments: a result cached for the OLD arguments is then lying around for that very item.)
             call["prep_raises"] = [r.choice(names)]
+            if r.random() < 0.7 and tag == calls[-1]["tag"]:
+                tag = f"t{ci}"
+                call["tag"] = tag
         for e in all_eks:
             o = r.choice(OUTCOMES)
             if o != "ok":
